@@ -647,6 +647,30 @@ def mutating_probes():
     calc("Node.from_dict", lambda w: [n for n in _nodes(w) if not n._children][0].from_dict(
         [{"data": _fresh(w, "s:f1"), "children": [{"data": _fresh(w, "s:f2")}, {"data": _fresh(w, "s:f3")}]},
          {"data": _fresh(w, "s:f2")}]))
+    # Node.from_dict with a deserialisation mapper, on an attached leaf that has siblings (and, second form, on the
+    # leaf of a clone): the mapper raises at invocation k -> the half-built branch must be gone again (D48 rollback)
+    def fd_mapper(pick):
+        def fn(w, plan):
+            def mapper(parent, data):
+                plan.tick()
+                return data["data"] if isinstance(data, dict) and "data" in data else data
+            leaves = [n for n in _nodes(w) if not n._children and n._parent is not None and len(n._parent._children) > 1] or \
+                     [n for n in _nodes(w) if not n._children]
+            target = leaves[0] if pick == 0 else leaves[-1]
+            target.from_dict([{"data": _fresh(w, "s:f1"), "children": [{"data": _fresh(w, "s:f2")}, {"data": _fresh(w, "s:f3"),
+                               "children": [{"data": _fresh(w, "s:f2")}]}]},
+                              {"data": _fresh(w, "s:f2")}, {"data": _fresh(w, "s:new"), "data_id": "M1"}], mapper=mapper)
+        return fn
+
+    P.append(("Node.from_dict(mapper) on an attached leaf with siblings", fd_mapper(0)))
+    P.append(("Node.from_dict(mapper) on the last attached leaf", fd_mapper(1)))
+
+    def fd_mapper_calc(w, plan):
+        # mapper AND calc_data_id both count: faults interleave (mapper, calc, mapper, calc, ...)
+        with _Hooked(w, plan):
+            fd_mapper(0)(w, plan)
+
+    P.append(("Node.from_dict(mapper) + calc_data_id on an attached leaf", fd_mapper_calc))
     calc("del tree[data]", lambda w: w.trees[0].__delitem__(_nodes(w)[-1].data))
     calc("Node.move_to", lambda w: _nodes(w)[-1].move_to(w.trees[0], before=0))
     calc("Node.remove(keep_children)", lambda w: _nodes(w)[0].remove(keep_children=True))
@@ -865,11 +889,15 @@ def run_probes(univ, setup, only=None):
                 m = struct_fail(w)
                 if m:
                     fails.append((name, k, f"after the exception at invocation {k}: {m}"))
+                if not readonly and raised is not None and name.startswith("Node.from_dict") and snapshot(w) != snap0:
+                    fails.append((name, k, f"from_dict failed at invocation {k} but left something behind: {snap_diff(snap0, snapshot(w))}"))
                 if readonly and snapshot(w) != snap0:
                     fails.append((name, k, f"read-only operation changed the tree (fault at invocation {k}): {snap_diff(snap0, snapshot(w))}"))
                 if raised is None and p2.n >= k:
-                    # the library swallowed the user's exception: legal only if the state is sound (checked above)
+                    # the callback raised at invocation k but the call returned a result: "a raising predicate / mapper /
+                    # visitor builds no tree, the exception escapes" (the library catches only its own control signals)
                     stats["swallowed"] = stats.get("swallowed", 0) + 1
+                    fails.append((name, k, f"the exception raised at invocation {k} was swallowed: the call returned normally"))
     return fails, stats
 
 
@@ -1070,3 +1098,109 @@ def late_collision_hists():
     H_.append([new, add(0, 0, a), add(0, 0, b), add(0, 0, c), add(0, 0, c), add(0, 0, c, None, True), add(0, 0, c, None, {"n": 1}),
                add(0, 0, d, None, {"n": 9}), ["short", 0, 1, "append_sibling", c, None, None], ["short", 0, 3, "prepend_sibling", a, None, None]])
     return [dict(univ=U, ops=h) for h in H_]
+
+
+# ---------------------------------------------------------------------------
+# (b3) call-INDEX faults of calc_data_id inside from_dict, tied to the model's [FaultIndex.step_k]:
+# the k-th invocation raises whatever its argument (the same object may be passed twice).  The model expresses
+# it by replacing the k-th calling item by an item with a fresh object on which the callback table raises
+# (FaultIndex.poison_items); here the implementation is run BOTH ways - call-index injection on the original
+# items, and the poisoned items with an argument-keyed raising callback - and must behave identically; the
+# poisoned history is what run_mut evaluates.
+# ---------------------------------------------------------------------------
+def poison_items_py(items, k, fresh):
+    """python twin of FaultIndex.poison_items: (items', remaining k or None)"""
+    out = []
+    for d, did, ch in items:
+        if k is None:
+            out.append([d, did, ch])
+            continue
+        if did is None:
+            if k == 0:
+                out.append([fresh, None, ch])
+                k = None
+                continue
+            k -= 1
+        ch2, k = poison_items_py(ch, k, fresh)
+        out.append([d, did, ch2])
+    return out, k
+
+
+def count_calling_items(items):
+    return sum((1 if did is None else 0) + count_calling_items(ch) for d, did, ch in items)
+
+
+def run_from_dict_k(univ, setup, ti, p, items, k, fresh, fn="name"):
+    """returns (Run of the poisoned history, message or None)"""
+    setup_p = [(["new", o[1], {"fn": fn, "raise": [fresh]}] if o[0] == "new" else o) for o in setup]
+    items_p, _ = poison_items_py(items, k, fresh)
+    run = replay13({"univ": univ, "ops": setup_p + [["from_dict", ti, p, items_p]]})
+    # the same on the original items with a fault at invocation k (0-based) of calc_data_id
+    setup_c = [(["new", o[1], fn] if o[0] == "new" else o) for o in setup]
+    w = build_world(univ, setup_c)
+    plan = Plan(k + 1)
+    t = w.trees[ti]
+    hook = t._calc_data_id_hook
+
+    def ticking(tree, data):
+        plan.tick()
+        return hook(tree, data)
+
+    thunk, _, _ = execute(w, ["from_dict", ti, p, items])
+    t._calc_data_id_hook = ticking
+    try:
+        res = [0, thunk()]
+    except CallbackFault:
+        res = [1, 8]
+    except Exception as e:
+        res = [1, H.err_class(e)]
+    finally:
+        t._calc_data_id_hook = hook
+    mine = [res, w.obs()]
+    if mine != run.obs[-1]:
+        return run, (f"from_dict with calc_data_id raising at invocation {k} behaves differently from the poisoned-item run: "
+                     f"{mine[0]} vs {run.obs[-1][0]}" + ("" if mine[1] != run.obs[-1][1] else " (same state)"))
+    return run, None
+
+
+# ---------------------------------------------------------------------------
+# (b4) the call ORDER of the sort key and of the filter predicate: FaultIndex.sort_calls / filter_calls
+# (which "the k-th invocation" of the model refers to) against the invocations recorded on the implementation
+# ---------------------------------------------------------------------------
+def call_order_check(univ, setup, ops):
+    """ops: sort / filter ops on tree 0 of the world built by `setup`.  Returns (message or None, n compared)."""
+    import json as _json
+    import re as _re
+    base = replay13({"univ": univ, "ops": setup}, keep_world=True)
+    w = base.world
+    terms, impl = [], []
+    for op in ops:
+        rec = _clean_calls(univ, setup, op)
+        t = w.trees[op[1]]
+        if op[0] == "sort":
+            _, ti, p, keyfn, reverse, deep = op
+            tbl = (keyfn or {}).get("tbl", {})
+            ents = []
+            for nd in mut.tree_nodes(t):
+                r = w.rel(nd)
+                kv = tbl.get(str(r), nd.name)
+                ents.append(f"({r}%nat, {H.coq_opt(kv, H.coq_text)})")
+            fn = f"sort_calls {H.coq_list(ents)} {H.coq_bool(reverse)} {H.coq_bool(deep)}"
+            impl.append(rec["key"])
+        else:
+            _, ti, p, verd = op
+            ents = [f"({w.rel(nd)}%nat, {mut.coq_verdict(verd.get(str(w.rel(nd)), 'T'))})" for nd in mut.tree_nodes(t)]
+            fn = f"filter_calls {H.coq_list(ents)}"
+            impl.append(rec["pred"])
+        terms.append(f"(match get_tree w {ti}%nat with Some t => match children_of {p}%nat (forest_of t) with Some ch => {fn} ch "
+                     f"| None => [] end | None => [] end)")
+    term = f"let w := run_chk {base.coq} empty_world in {H.coq_list(terms)}"
+    out = H.eval_in_coq("CaseMut FaultIndex", term, tag="order")
+    m = _re.search(r"=\s*(\[.*\])\s*:\s*list \(list nat\)", out, _re.S)
+    if not m:
+        return f"call order: cannot evaluate the model ({out[-300:]})", 0
+    model = _json.loads(m.group(1).replace("%nat", "").replace(";", ","))
+    for op, a, b in zip(ops, impl, model):
+        if a != b:
+            return f"call order of {op[0]} {op[2:]}: implementation {a}, model {b}", len(ops)
+    return None, len(ops)
